@@ -3,6 +3,7 @@
 package kcp
 
 import (
+	"os"
 	"errors"
 	"fmt"
 	"io"
@@ -115,6 +116,8 @@ func vfC13Scenarios() []vfC13Scn {
 		{name: "Write/close-while-blocked", target: "session", sndWnd: 2, pre: []string{"fill"}, calls: []vfCall{W(0, 0, "closed", 15*ms, 15*ms+slack)}, events: []vfEv{{15 * ms, "Close", 0}}},
 		{name: "Write/socket-error-while-blocked", target: "session", sndWnd: 2, pre: []string{"fill"}, calls: []vfCall{W(0, 0, "error", 15*ms, 40*ms)}, events: []vfEv{{15 * ms, "writeerr", 0}}},
 		{name: "Write/two-writers-window-opens-by-two", target: "session", sndWnd: 2, pre: []string{"fill"}, calls: []vfCall{W(0, 0, "ok", 20*ms, 35*ms), W(0, 0, "ok", 20*ms, 35*ms)}, events: []vfEv{{20 * ms, "ack2", 0}}},
+		{name: "Write/window-enlarged-while-blocked", target: "session", sndWnd: 2, pre: []string{"fill"}, calls: []vfCall{W(0, 0, "ok", 20*ms, 35*ms)}, events: []vfEv{{20 * ms, "growwnd", 0}}},
+		{name: "Write/two-writers-window-enlarged", target: "session", sndWnd: 2, pre: []string{"fill"}, calls: []vfCall{W(0, 0, "ok", 20*ms, 45*ms), W(0, 0, "ok", 20*ms, 45*ms)}, events: []vfEv{{20 * ms, "growwnd", 0}}},
 		{name: "Write/after-close-fails", target: "session", pre: []string{"Close"}, calls: []vfCall{W(0, 0, "closed", 0, slack)}},
 		// ---- Accept
 		{name: "Accept/new-peer", target: "listener", calls: []vfCall{A(0, 0, "session", 20*ms, 20*ms+slack)}, events: []vfEv{{20 * ms, "hello", 0}}},
@@ -126,6 +129,15 @@ func vfC13Scenarios() []vfC13Scn {
 		{name: "Accept/two-acceptors-two-peers", target: "listener", calls: []vfCall{A(0, 0, "session", 20*ms, 25*ms+slack), A(0, 0, "session", 20*ms, 25*ms+slack)}, events: []vfEv{{20 * ms, "hello", 0}, {25 * ms, "hello2", 0}}},
 	}
 }
+
+// vfC13Switch: cost of running another than the default thread at a blocking point / of a non-default ready select case
+// (0 = free as in CHESS, 1 = delay bounding).
+var vfC13Switch = func() int8 {
+	if os.Getenv("VERIF_C13_SWITCH") == "0" {
+		return 0
+	}
+	return 1
+}()
 
 func vfPush(sn uint32, data []byte) []byte {
 	return wire.EncodeSegment(wire.Seg{Conv: vfConv, Cmd: wire.CmdPush, Wnd: 32, Sn: sn, Una: 0, Data: data}, -1)
@@ -165,7 +177,7 @@ func vfC13Run(sc vfC13Scn, async bool) explore.RunFunc {
 			}
 			mu.Unlock()
 		}
-		out := hx.RunVrt(e, vrt.Config{PreemptCost: 1, SwitchCost: 0, SelectCost: 0, TimerEarlyCost: -1, AsyncTimerChan: async, Horizon: 30 * time.Second, MaxSteps: 200000}, func() {
+		out := hx.RunVrt(e, vrt.Config{PreemptCost: 1, SwitchCost: vfC13Switch, SelectCost: vfC13Switch, TimerEarlyCost: -1, AsyncTimerChan: async, Horizon: 30 * time.Second, MaxSteps: 200000}, func() {
 			vfResetGlobals()
 			n := vfNewNet()
 			caddr, laddr := vfUDP(2, 40000), vfUDP(1, 9000)
@@ -236,6 +248,8 @@ func vfC13Run(sc vfC13Scn, async bool) explore.RunFunc {
 					csock.inject(laddr, vfAck(0, 1))
 				case "ack2":
 					csock.inject(laddr, append(vfAck(0, 1), vfAck(1, 2)...))
+				case "growwnd":
+					sess.SetWindowSize(8, 32) // the peer stays silent: only the session's own periodic update can wake the writer
 				case "SetReadDeadline":
 					sess.SetReadDeadline(abs(d))
 				case "SetWriteDeadline":
@@ -439,7 +453,7 @@ func vfC13Run(sc vfC13Scn, async bool) explore.RunFunc {
 
 func vfC13(c *hx.Ctx) {
 	c.Rule("one session (or listener) on a virtual socket, peer packets forged and injected; 1-3 callers blocked in Read/Write/Accept and an event thread running a timed script " +
-		"(data, acks, SetDeadline variants none->set / later / earlier / zero->set / past, Close, socket errors); every interleaving with preemptions <= bound (switches at blocking points and select ties free), " +
+		"(data, acks, SetDeadline variants none->set / later / earlier / zero->set / past, Close, socket errors); every interleaving within the deviation bound (a deviation = a preemption, running another than the default thread at a blocking point, or a non-default ready select case: delay bounding; VERIF_C13_SWITCH=0 makes the latter two free as in CHESS), " +
 		"both timer-channel semantics; each call must return with the scripted outcome inside its virtual-time window. Non-trivial = at least one non-default scheduling choice.")
 	c.Assume("threads take no virtual time; a timer firing at instant T is observed 1ns after T")
 	c.ByUnit = true
